@@ -8,7 +8,7 @@ COMMON_ASSUME = [
     "sync.Pool of the lindb packages is a per-run LIFO stack (deterministic reuse inside a run, nothing survives a run); pools inside third-party modules stay real",
     "every worker process executes one throw-away run first, so that lazily initialised package state is the same for a plan found in a batch and for its replay in a fresh process; the first-use creation path of lindb's process-wide metric vectors (internal/linmetric WithTagValues) is no scheduling point; tools/replaycheck.py compares runs as k-th run of a process with their replay in a fresh process",
     "files opened and mappings created by the code under test (os.Open/OpenFile/Create, unix.Mmap of lindb packages) are registered and released when a run is over, so that killed incarnations do not exhaust the worker process",
-    "I/O errors are injected only where the property's rule says so (C01: table files and removals; C05: opening a page; C08: the follower's append; C09: table writes of metadata / index flushes), as a reported failure of the operation, never as silently lost or torn data",
+    "I/O errors are injected only where the property's rule says so (C01: table files and removals; C05: opening a page; C07: table writes of the metadata store inside flush jobs; C08: the follower's append; C09: table writes of metadata / index flushes), as a reported failure of the operation, never as silently lost or torn data",
 ]
 
 PROPS = {
@@ -167,8 +167,8 @@ PROPS["C07"] = {
     "harness": "node", "level": "exploration", "per_proc": 40, "proc_timeout": 900,
     "quick": {"runs": 2500, "budget_s": 300},
     "thorough": {"runs": 60000, "budget_s": 1700, "shrink_runs": 150, "shrink_timeout": 600},
-    "rule": "Each run: a storage node without its network - real tsdb engine (one database, one shard, one family), the real write-ahead-log manager with the partition of this node as leader, its real local replicator loop and the engine's real flush checker - through up to 6 process incarnations on one directory. 9-20 operations out of: append 1-3 messages of 1-3 rows to the log (partition.WriteLog, as the write handler does), request a flush job (database.Flush: metadata -> index -> family data, running concurrently with replication), request and wait, log housekeeping (Sync + GC), let background work run, read back, clean shutdown in the runtime's order (stop log manager, close engine, close log) and start (in a third of the histories the shutdown does not wait for a running flush job - SIGTERM whenever it comes; a shutdown that hangs for two simulated minutes or ends in an unrecovered panic counts as a process death); an entry that is no decodable block (the replicator must skip it without acknowledging anything applied but not yet flushed); a quarter of the histories end with late data of an expired family: memory database time-to-live longer than a day, 26 simulated hours pass (the log manager's hourly housekeeping may destroy the expired partition's log), then the process dies. While an operation runs the process may die at a tape-chosen point: before a file-system operation of any kv store (data family, shard index, metadata), at a function entry of the queue / page / replica / tsdb / memdb / kv / version / index packages (probability x20 at commit / acknowledge / sequence functions), i.e. also between data commit, sequence record and log acknowledgement. After every restart the real recovery runs (WriteAheadLogManager.Recovery, replicator rewinds to ack+1), the harness waits for catch-up and reads every cell back through the real query pipeline. Oracle: every message writes 1 into 1-3 (series, slot) cells of a sum field that no other message touches: a cell of a message whose append returned must read exactly 1 (nothing = lost, 2 = applied twice), a cell of an append in flight at the death 0 or 1, no other cell may exist, the series must carry its own tags; right after recovery the log's acknowledged position must not exceed the sequence stored with the flushed data. In half of the runs the node also holds the log of another leader of the same family (as after a leader change): a third of the entries arrive there through Partition.ReplicaLog and are applied by that log's own replicator, concurrently with the node's own log; acknowledged position vs. stored sequence is checked per leader.",
-    "fault_kinds": ["crash@fs-write", "crash@fs-sync", "crash@queue", "crash@page", "crash@tsdb", "crash@index", "crash@version", "crash@kv", "crash@memdb", "crash@replica", "clean-restart", "flush-request", "log-gc", "family-expired", "undecodable-log-entry", "shutdown-during-flush"],
+    "rule": "Each run: a storage node without its network - real tsdb engine (one database, one shard, one family), the real write-ahead-log manager with the partition of this node as leader, its real local replicator loop and the engine's real flush checker - through up to 6 process incarnations on one directory. 9-20 operations out of: append 1-3 messages of 1-3 rows to the log (partition.WriteLog, as the write handler does), request a flush job (database.Flush: metadata -> index -> family data, running concurrently with replication), request and wait, log housekeeping (Sync + GC), let background work run, read back, clean shutdown in the runtime's order (stop log manager, close engine, close log) and start (in a third of the histories the shutdown does not wait for a running flush job - SIGTERM whenever it comes; a shutdown that hangs for two simulated minutes or ends in an unrecovered panic counts as a process death); an entry that is no decodable block (the replicator must skip it without acknowledging anything applied but not yet flushed); a quarter of the histories end with late data of an expired family: memory database time-to-live longer than a day, 26 simulated hours pass (the log manager's hourly housekeeping may destroy the expired partition's log), then the process dies. While an operation runs the process may die at a tape-chosen point: before a file-system operation of any kv store (data family, shard index, metadata), at a function entry of the queue / page / replica / tsdb / memdb / kv / version / index packages (probability x20 at commit / acknowledge / sequence functions), i.e. also between data commit, sequence record and log acknowledgement. After every restart the real recovery runs (WriteAheadLogManager.Recovery, replicator rewinds to ack+1), the harness waits for catch-up and reads every cell back through the real query pipeline. Oracle: every message writes 1 into 1-3 (series, slot) cells of a sum field that no other message touches: a cell of a message whose append returned must read exactly 1 (nothing = lost, 2 = applied twice), a cell of an append in flight at the death 0 or 1, no other cell may exist, the series must carry its own tags; right after recovery the log's acknowledged position must not exceed the sequence stored with the flushed data. In half of the runs the node also holds the log of another leader of the same family (as after a leader change): a third of the entries arrive there through Partition.ReplicaLog and are applied by that log's own replicator, concurrently with the node's own log; acknowledged position vs. stored sequence is checked per leader. In a quarter of the runs 1-2 table writes of the metadata store fail with an I/O error (disk full) inside a flush job: the job reports it and stops, and nothing that depends on what that metadata flush was about to persist may become durable before a later one succeeds.",
+    "fault_kinds": ["crash@fs-write", "crash@fs-sync", "crash@queue", "crash@page", "crash@tsdb", "crash@index", "crash@version", "crash@kv", "crash@memdb", "crash@replica", "clean-restart", "flush-request", "log-gc", "family-expired", "undecodable-log-entry", "shutdown-during-flush", "io-error@meta-write"],
     "real": NODE_REAL + ["replica (write-ahead-log manager, log, partition, local replicator)", "pkg/queue fan-out queue on mapped pages", "tsdb data flush checker and its workers"],
     "stub": ["rpc transport for the read-back query (loopback)", "no remote replicas, no broker"],
     "assumptions": COMMON_ASSUME + ["writes are not failed artificially (Replica() acknowledges a message whose write returned an error by design)", "a clean shutdown waits for the running flush job first (dataFamily.Close can wait forever for a flush that needs the lock Close holds - observed, outside this property)"],
